@@ -3,5 +3,6 @@ NEXT Next
 INVARIANT NoEarlyWrite
 INVARIANT AttachLast
 INVARIANT Outcome
+INVARIANT SpecCarriesNothing
 INVARIANT DelFrame
 CHECK_DEADLOCK FALSE
